@@ -79,4 +79,27 @@ func init() {
 		Assumptions: []string{"validator.Encode's json.Encoder is intercepted: the oracle inspects the structure handed to it; encoding/json is trusted to serialise it faithfully", "the level plumbing inside the generated Rego (which validation lands in which bucket) is not covered by this harness (regosym part C03b)"},
 		TrustedBase: []string{stdTrusted},
 	})
+
+	reg(&PropertySpec{
+		ID: "C16", Level: "model_checking",
+		Rule: "one state = one feasible path of the real pigeon runtime + grammar table + ParsePath/build on a string of symbolic ASCII bytes; paths differ in the byte classes the parser (and the reference recogniser) distinguishes, so each path stands for a whole class of strings decided by z3",
+		Harnesses: func(tier string) []HarnessSpec {
+			if tier == "thorough" {
+				return []HarnessSpec{
+					{Pkg: "internal/parser/path", Fn: "VerifC16Parse5", Reach: []string{"accepted", "accepted-sentence", "rejected"}, Bounds: map[string]any{"length": "1..5 ASCII bytes", "paren_depth": 3}},
+					{Pkg: "internal/parser/path", Fn: "VerifC16Variants5", Reach: []string{"sentence"}, Bounds: map[string]any{"length": "1..5 ASCII bytes"}},
+				}
+			}
+			return []HarnessSpec{
+				{Pkg: "internal/parser/path", Fn: "VerifC16Parse4", Reach: []string{"accepted", "accepted-sentence", "rejected"}, Bounds: map[string]any{"length": "1..4 ASCII bytes", "paren_depth": 3}},
+				{Pkg: "internal/parser/path", Fn: "VerifC16Variants3", Reach: []string{"sentence"}, Bounds: map[string]any{"length": "1..3 ASCII bytes"}},
+			}
+		},
+		Assumptions: []string{
+			"input bytes are ASCII (<0x80); multi-byte UTF-8 is outside the bound",
+			"the reference recogniser in the harness is a hand transcription of third_party/propertyparser.peg with PEG semantics (ordered choice, greedy repetition) anchored at end of input, trailing whitespace allowed",
+			"strings longer than the stated length are outside the claim (the first accepted-but-not-consumed inputs of the unfixed parser appear at length 4)",
+		},
+		TrustedBase: []string{stdTrusted, "stubs for sync.Pool, utf8.DecodeRune, unicode.ToLower"},
+	})
 }
